@@ -1,6 +1,6 @@
 (* C11 — ONE whole-bus theorem for the union of the fragments: standard and enum signals, descriptions,
    attribute assignments of the four types (and hex) on bus, nodes, messages and signals together with the
-   six dedicated fields, and per message at most one simple multiplexer (standard or enum children, one group each)
+   six dedicated fields, and per message at most one multiplexer (standard or enum children in one group, several groups or fixed)
    whose message may carry attributes on every signal, the multiplexer and its children included.
    Structure: RoundTripMux on the stripped bus; attribute layer: RoundTripAttr's, with the signals of a
    message located by name / id instead of by position (the importer re-orders the signals of a message that
@@ -71,6 +71,30 @@ Section StripFacts.
 End StripFacts.
 
 (* ---------------- the exporter with attribute accumulators, multiplexer included ---------------- *)
+Definition gacx (cms : list dcomment) (vs : list dvalenc) (xs : list dextmux) (msgs : list dmessage) (sigs : list dsignal) (L : list Z) (A : eacc) : eacc :=
+  mkeacc cms (ea_attrs A) (ea_attrdefs A) (ea_attrvals A) vs xs msgs sigs (ea_names A) L.
+
+Lemma asgs_gacx : forall k n mi sg l cms vs xs msgs sigs L A,
+  fold_left (fun a x => export_assignment k n mi sg x a) l (gacx cms vs xs msgs sigs L A)
+  = gacx cms vs xs msgs sigs L (fold_left exp_t (map (mktasg k n mi sg) l) A).
+Proof.
+  intros. change (gacx cms vs xs msgs sigs L A) with (with_ext xs (gacc cms vs msgs sigs L A)).
+  rewrite fold_assignment_ext, asgs_gacc. reflexivity.
+Qed.
+
+Lemma export_signal_gx : forall es sigs order msgid recs many fuel s cms vs xs msgs sg L A,
+  esig_ok es (strip_sig s) ->
+  export_signal es sigs order msgid recs many fuel s (gacx cms vs xs msgs sg L A)
+  = gacx (cms ++ sig_cms msgid s) (vs ++ venc_e es msgid s) xs msgs (sg ++ [dsig_e es order recs s]) (enums_step L s)
+         (fold_left exp_t (T_sig msgid s) A).
+Proof.
+  intros es sigs order msgid recs many fuel s cms vs xs msgs sg L A Hok.
+  change (gacx cms vs xs msgs sg L A) with (with_ext xs (gacc cms vs msgs sg L A)).
+  rewrite export_signal_ext.
+  - rewrite export_signal_g by assumption. reflexivity.
+  - destruct Hok as [_ [_ [_ [_ [_ [_ Hk]]]]]]. cbn [s_kind strip_sig] in Hk. intros E. rewrite E in Hk. exact Hk.
+Qed.
+
 Section GWalk.
   Variables (es : list enum_def) (sigs : list signal) (order : byte_order) (msgid : Z) (recs : list string) (many : bool).
   Variable mx : signal.
@@ -79,166 +103,133 @@ Section GWalk.
   Hypothesis Hpm : s_parent mx = None.
   Let K := children sigs mx.
   Hypothesis HK : Forall (fun c => child_ok es (strip_sig mx) (strip_sig c)) K.
-  Hypothesis HKn : NoDup (map (fun c => clear (s_name c)) K).
 
-  Lemma export_child_g : forall fuel c cms vs msgs sg L A,
+  Lemma export_child_g : forall fuel c cms vs xs msgs sg L A,
     child_ok es (strip_sig mx) (strip_sig c) ->
-    export_signal es sigs order msgid recs many fuel c (gacc cms vs msgs sg L A)
-    = gacc (cms ++ sig_cms msgid c) (vs ++ venc_e es msgid c) msgs (sg ++ [child_dsig es order recs mx 0 c]) (enums_step L c)
+    export_signal es sigs order msgid recs many fuel c (gacx cms vs xs msgs sg L A)
+    = gacx (cms ++ sig_cms msgid c) (vs ++ venc_e es msgid c) xs msgs (sg ++ [child_dsig es order recs mx 0 c]) (enums_step L c)
            (fold_left exp_t (T_sig msgid c) A).
   Proof.
-    intros fuel c cms vs msgs sg L A [Hk [Hp _]]. cbn [s_kind s_parent strip_sig s_id] in Hk, Hp.
+    intros fuel c cms vs xs msgs sg L A [Hk [Hp _]]. cbn [s_kind s_parent strip_sig s_id] in Hk, Hp.
     assert (Habs : abs_start (length sigs) sigs c = s_rel mx + sel_width mx + s_rel c).
     { destruct sigs as [|x r] eqn:Es; [destruct Hmx|]. rewrite <- Es in *.
       replace (length sigs) with (S (length r)) by (rewrite Es; reflexivity).
       cbn [abs_start]. rewrite Hp, (ProofsIds.find_sig_unique sigs mx Hids Hmx), abs_start_top by assumption. reflexivity. }
     unfold sig_cms, opt_cm, venc_e, child_dsig, enums_step, e_of, T_sig, wk_sig.
-    assert (Hcm : forall x, add_comment x (gacc cms vs msgs sg L A) = gacc (cms ++ [x]) vs msgs sg L A) by reflexivity.
+    assert (Hcm : forall x, add_comment x (gacx cms vs xs msgs sg L A) = gacx (cms ++ [x]) vs xs msgs sg L A) by reflexivity.
     destruct fuel; cbn [export_signal]; rewrite Hp, Habs;
-      (destruct (String.eqb (s_desc c) EmptyString); [|rewrite Hcm]; rewrite asgs_gacc;
+      (destruct (String.eqb (s_desc c) EmptyString); [|rewrite Hcm]; rewrite asgs_gacx;
        destruct (s_kind c); try (exfalso; apply Hk; reflexivity); cbn [app]; rewrite ?app_nil_r; reflexivity).
   Qed.
 
-  Lemma in_group_grp_s : forall c id, child_ok es (strip_sig mx) (strip_sig c) -> in_group c id = (id =? grp c).
+  (* the first-visit steps of the group walk, on the accumulator with attributes *)
+  Lemma xsteps_gacx : forall k ids cms vs xs msgs sg L A,
+    fold_left (xstep es sigs order msgid recs many k) (wpairs sigs mx ids) (gacx cms vs xs msgs sg L A)
+    = gacx (cms ++ flat_map (sig_cms msgid) (wall sigs mx ids)) (vs ++ flat_map (venc_e es msgid) (wall sigs mx ids)) xs msgs
+           (sg ++ wsigs es sigs order recs mx ids) (fold_left enums_step (wall sigs mx ids) L)
+           (fold_left exp_t (flat_map (T_sig msgid) (wall sigs mx ids)) A).
   Proof.
-    intros c id [_ [_ [[g [Hg _]] _]]]. cbn [s_groups strip_sig] in Hg. unfold in_group, grp. rewrite Hg. unfold mem_z. cbn [existsb]. rewrite orb_false_r. reflexivity.
-  Qed.
-
-  Lemma walk_inner_g : forall k id l S gmap names cms vs msgs sg L A,
-    Forall (fun c => child_ok es (strip_sig mx) (strip_sig c)) l ->
-    (forall cn v, lookup String.eqb cn gmap = Some v -> In cn S) ->
-    NoDup (map (fun c => clear (s_name c)) l) ->
-    (forall c, In c l -> in_group c id = true -> ~ In (clear (s_name c)) S) ->
-    exists gmap' names',
-      fold_left (wstep es sigs order msgid recs many k id) l (gacc cms vs msgs sg L A, names, gmap, false, false)
-      = (gacc (cms ++ flat_map (sig_cms msgid) (filter (fun c => in_group c id) l))
-              (vs ++ flat_map (venc_e es msgid) (filter (fun c => in_group c id) l)) msgs
-              (sg ++ map (child_dsig es order recs mx (u32 id)) (filter (fun c => in_group c id) l))
-              (fold_left enums_step (filter (fun c => in_group c id) l) L)
-              (fold_left exp_t (flat_map (T_sig msgid) (filter (fun c => in_group c id) l)) A), names', gmap', false, false) /\
-      (forall cn v, lookup String.eqb cn gmap' = Some v -> In cn (S ++ map (fun c => clear (s_name c)) (filter (fun c => in_group c id) l))).
-  Proof.
-    intros k id l. induction l as [|c r IH]; intros S gmap names cms vs msgs sg L A Hl HG Hnd HS; cbn [fold_left filter map flat_map].
-    - exists gmap, names. rewrite !app_nil_r. split; [reflexivity|exact HG].
-    - inversion Hl as [|? ? Hc Hr]; subst. cbn [map] in Hnd. inversion Hnd as [|? ? Hni Hndr]; subst.
-      unfold wstep at 2. destruct (in_group c id) eqn:Eg; cbn [negb].
-      + assert (Hnone : lookup String.eqb (clear (s_name c)) gmap = None).
-        { destruct (lookup String.eqb (clear (s_name c)) gmap) as [v|] eqn:El; [|reflexivity].
-          exfalso. apply (HS c (or_introl eq_refl) Eg). eapply HG. exact El. }
-        rewrite Hnone. rewrite (export_child_g k c) by assumption.
-        assert (Hk : match s_kind c with KMux => true | _ => false end = false).
-        { destruct Hc as [Hk _]. cbn [s_kind strip_sig] in Hk. destruct (s_kind c); try reflexivity. exfalso. apply Hk. reflexivity. }
-        rewrite Hk. cbn [orb].
-        replace (set_sigs (set_last_switch (u32 id) (ea_sigs (gacc (cms ++ sig_cms msgid c) (vs ++ venc_e es msgid c) msgs (sg ++ [child_dsig es order recs mx 0 c]) (enums_step L c) (fold_left exp_t (T_sig msgid c) A))))
-                          (gacc (cms ++ sig_cms msgid c) (vs ++ venc_e es msgid c) msgs (sg ++ [child_dsig es order recs mx 0 c]) (enums_step L c) (fold_left exp_t (T_sig msgid c) A)))
-          with (gacc (cms ++ sig_cms msgid c) (vs ++ venc_e es msgid c) msgs (sg ++ [child_dsig es order recs mx (u32 id) c]) (enums_step L c) (fold_left exp_t (T_sig msgid c) A))
-          by (unfold gacc, set_sigs; cbn [ea_sigs ea_comments ea_attrs ea_attrdefs ea_attrvals ea_valencs ea_extmuxes ea_messages ea_names ea_enums];
+    intros k ids. induction ids as [|id r IH]; intros cms vs xs msgs sg L A; cbn [wpairs wall wsigs flat_map fold_left].
+    - rewrite !app_nil_r. reflexivity.
+    - rewrite fold_left_app.
+      assert (G : forall l cms vs sg L A, (forall c, In c l -> child_ok es (strip_sig mx) (strip_sig c)) ->
+                fold_left (xstep es sigs order msgid recs many k) (map (pair id) l) (gacx cms vs xs msgs sg L A)
+                = gacx (cms ++ flat_map (sig_cms msgid) l) (vs ++ flat_map (venc_e es msgid) l) xs msgs
+                       (sg ++ map (child_dsig es order recs mx (u32 id)) l) (fold_left enums_step l L)
+                       (fold_left exp_t (flat_map (T_sig msgid) l) A)).
+      { induction l as [|c q IHl]; intros cms0 vs0 sg0 L0 A0 Hl; cbn [map fold_left flat_map]; [rewrite !app_nil_r; reflexivity|].
+        unfold xstep at 2. cbn [fst snd]. rewrite (export_child_g k c) by (apply Hl; left; reflexivity).
+        replace (set_sigs (set_last_switch (u32 id) (ea_sigs (gacx (cms0 ++ sig_cms msgid c) (vs0 ++ venc_e es msgid c) xs msgs (sg0 ++ [child_dsig es order recs mx 0 c]) (enums_step L0 c) (fold_left exp_t (T_sig msgid c) A0))))
+                          (gacx (cms0 ++ sig_cms msgid c) (vs0 ++ venc_e es msgid c) xs msgs (sg0 ++ [child_dsig es order recs mx 0 c]) (enums_step L0 c) (fold_left exp_t (T_sig msgid c) A0)))
+          with (gacx (cms0 ++ sig_cms msgid c) (vs0 ++ venc_e es msgid c) xs msgs (sg0 ++ [child_dsig es order recs mx (u32 id) c]) (enums_step L0 c) (fold_left exp_t (T_sig msgid c) A0))
+          by (unfold gacx, set_sigs; cbn [ea_sigs ea_comments ea_attrs ea_attrdefs ea_attrvals ea_valencs ea_extmuxes ea_messages ea_names ea_enums];
               rewrite set_last_switch_snoc, child_dsig_switch; reflexivity).
-        destruct (IH (S ++ [clear (s_name c)]) ((clear (s_name c), [id]) :: gmap) (names ++ [clear (s_name c)])
-                     (cms ++ sig_cms msgid c) (vs ++ venc_e es msgid c) msgs
-                     (sg ++ [child_dsig es order recs mx (u32 id) c]) (enums_step L c) (fold_left exp_t (T_sig msgid c) A) Hr) as [gmap' [names' [E1 E2]]].
-        * intros cn v Hlk. cbn [lookup] in Hlk. destruct (String.eqb cn (clear (s_name c))) eqn:E.
-          -- apply String.eqb_eq in E. subst. apply in_or_app. right. left. reflexivity.
-          -- apply in_or_app. left. eapply HG. exact Hlk.
-        * assumption.
-        * intros c' Hc' Hg' Hin. apply in_app_or in Hin. destruct Hin as [Hin|[Hin|[]]].
-          -- apply (HS c' (or_intror Hc') Hg' Hin).
-          -- apply Hni. rewrite Hin. apply (in_map (fun c => clear (s_name c))). assumption.
-        * exists gmap', names'. split.
-          -- rewrite E1. cbn [map flat_map fold_left]. rewrite fold_left_app, <- !app_assoc. reflexivity.
-          -- intros cn v Hlk. specialize (E2 cn v Hlk). cbn [map]. rewrite <- app_assoc in E2. exact E2.
-      + apply IH; try assumption. intros c' Hc'. apply HS. right. assumption.
-  Qed.
-
-  Lemma walk_outer_g : forall k ids S gmap names cms vs msgs sg L A,
-    NoDup ids ->
-    (forall cn v, lookup String.eqb cn gmap = Some v -> In cn S) ->
-    (forall c, In c K -> In (clear (s_name c)) S -> ~ In (grp c) ids) ->
-    exists gmap' names',
-      fold_left (fun st id => fold_left (wstep es sigs order msgid recs many k id) K st) ids (gacc cms vs msgs sg L A, names, gmap, false, false)
-      = (gacc (cms ++ flat_map (sig_cms msgid) (wall sigs mx ids)) (vs ++ flat_map (venc_e es msgid) (wall sigs mx ids)) msgs
-              (sg ++ wsigs es sigs order recs mx ids) (fold_left enums_step (wall sigs mx ids) L)
-              (fold_left exp_t (flat_map (T_sig msgid) (wall sigs mx ids)) A), names', gmap', false, false).
-  Proof.
-    intros k ids. induction ids as [|id r IH]; intros S gmap names cms vs msgs sg L A Hnd HG HS; cbn [fold_left wsigs wall flat_map].
-    - exists gmap, names. rewrite !app_nil_r. reflexivity.
-    - inversion Hnd as [|? ? Hni Hr]; subst.
-      destruct (walk_inner_g k id K S gmap names cms vs msgs sg L A HK HG HKn) as [gmap1 [names1 [E1 E2]]].
-      { intros c Hc Hg Hin. apply (HS c Hc Hin). left. rewrite (in_group_grp_s c id) in Hg by (rewrite Forall_forall in HK; apply HK; assumption).
-        apply Z.eqb_eq in Hg. exact Hg. }
-      rewrite E1.
-      destruct (IH (S ++ map (fun c => clear (s_name c)) (filter (fun c => in_group c id) K)) gmap1 names1
-                   (cms ++ flat_map (sig_cms msgid) (filter (fun c => in_group c id) K))
-                   (vs ++ flat_map (venc_e es msgid) (filter (fun c => in_group c id) K)) msgs
-                   (sg ++ map (child_dsig es order recs mx (u32 id)) (filter (fun c => in_group c id) K))
-                   (fold_left enums_step (filter (fun c => in_group c id) K) L)
-                   (fold_left exp_t (flat_map (T_sig msgid) (filter (fun c => in_group c id) K)) A) Hr E2) as [gmap' [names' E]].
-      { intros c Hc Hin Hg. apply in_app_or in Hin. destruct Hin as [Hin|Hin].
-        - apply (HS c Hc Hin). right. assumption.
-        - apply in_map_iff in Hin. destruct Hin as [c' [Hn Hc']]. apply filter_In in Hc'. destruct Hc' as [Hc'K Hg'].
-          assert (c' = c) by (apply (NoDup_map_inj (fun c => clear (s_name c)) K); assumption). subst c'.
-          rewrite (in_group_grp_s c id) in Hg' by (rewrite Forall_forall in HK; apply HK; assumption).
-          apply Z.eqb_eq in Hg'. apply Hni. rewrite Hg'. exact Hg. }
-      exists gmap', names'. rewrite E. unfold wsigs, wall. fold K. rewrite !flat_map_app, !fold_left_app, <- !app_assoc. reflexivity.
+        rewrite IHl by (intros c' Hc'; apply Hl; right; assumption). rewrite fold_left_app, <- !app_assoc. reflexivity. }
+      rewrite G by (intros c Hc; apply filter_In in Hc; rewrite Forall_forall in HK; apply HK; tauto).
+      rewrite IH. rewrite !flat_map_app, !fold_left_app, <- !app_assoc. reflexivity.
   Qed.
 End GWalk.
 
-Lemma export_top_g : forall es sigs order msgid recs k s cms vs msgs sg L A,
+Lemma export_top_g : forall es sigs order msgid recs k s cms vs xs msgs sg L A,
   NoDup (map s_id sigs) -> In s sigs -> top_ok es (strip_sig s) ->
   (is_muxb s = true -> Forall (fun c => child_ok es (strip_sig s) (strip_sig c)) (children sigs s) /\
                        NoDup (map (fun c => clear (s_name c)) (children sigs s))) ->
-  export_signal es sigs order msgid recs false (S k) s (gacc cms vs msgs sg L A)
-  = gacc (cms ++ flat_map (sig_cms msgid) (tx sigs s)) (vs ++ flat_map (venc_e es msgid) (tx sigs s)) msgs
+  export_signal es sigs order msgid recs false (S k) s (gacx cms vs xs msgs sg L A)
+  = gacx (cms ++ flat_map (sig_cms msgid) (tx sigs s)) (vs ++ flat_map (venc_e es msgid) (tx sigs s)) (xs ++ texts msgid sigs s) msgs
          (sg ++ tdsigs es sigs order recs s) (fold_left enums_step (tx sigs s) L)
          (fold_left exp_t (flat_map (T_sig msgid) (tx sigs s)) A).
 Proof.
-  intros es sigs order msgid recs k s cms vs msgs sg L A Hids Hin Htop Hkids.
+  intros es sigs order msgid recs k s cms vs xs msgs sg L A Hids Hin Htop Hkids.
   destruct Htop as [Hp [Hg [_ [_ [_ [Hr Hm]]]]]]. cbn [s_parent s_groups s_rel s_kind strip_sig s_size s_gcount s_gsize] in Hp, Hg, Hr, Hm.
   destruct (s_kind s) eqn:Ek.
-  - unfold tdsigs, tx, is_muxb. rewrite Ek. cbn [flat_map fold_left]. rewrite !app_nil_r. apply export_signal_g.
+  - unfold tdsigs, tx, texts, is_muxb. rewrite Ek. cbn [flat_map fold_left]. rewrite !app_nil_r. apply export_signal_gx.
     unfold esig_ok. cbn [s_parent s_groups s_startval s_sendtype s_attrs s_rel s_kind strip_sig s_size]. rewrite Ek. auto 10.
-  - unfold tdsigs, tx, is_muxb. rewrite Ek. cbn [flat_map fold_left]. rewrite !app_nil_r. apply export_signal_g.
+  - unfold tdsigs, tx, texts, is_muxb. rewrite Ek. cbn [flat_map fold_left]. rewrite !app_nil_r. apply export_signal_gx.
     unfold esig_ok. cbn [s_parent s_groups s_startval s_sendtype s_attrs s_rel s_kind strip_sig s_size]. rewrite Ek. auto 10.
-  - destruct (Hkids ltac:(unfold is_muxb; rewrite Ek; reflexivity)) as [HK HKn].
-    unfold tdsigs, tx, is_muxb. rewrite Ek. cbn [flat_map fold_left].
+  - destruct Hm as [[Hg1 Hg2] Hgs].
+    destruct (Hkids ltac:(unfold is_muxb; rewrite Ek; reflexivity)) as [HK HKn].
+    (* the group walk does not look at attributes: its facts come from the stripped children *)
+    assert (HKg : Forall (gok s) (children sigs s)).
+    { eapply Forall_impl; [|exact HK]. intros c Hc. exact (child_gok es (strip_sig s) (strip_sig c) Hc). }
+    unfold tdsigs, tx, texts, is_muxb. rewrite Ek. cbn [flat_map fold_left].
     unfold sig_cms at 1, opt_cm, venc_e at 1, enums_step at 2. rewrite Ek. cbn [app].
     cbn [export_signal]. rewrite Hp, Ek.
     rewrite abs_start_top by assumption.
-    assert (Hcm : (if String.eqb (s_desc s) EmptyString then gacc cms vs msgs sg L A
-                   else add_comment (mkdcomment OSignal (s_desc s) EmptyString msgid (clear (s_name s))) (gacc cms vs msgs sg L A))
-                  = gacc (cms ++ (if String.eqb (s_desc s) EmptyString then [] else [mkdcomment OSignal (s_desc s) EmptyString msgid (clear (s_name s))])) vs msgs sg L A).
+    assert (Hcm : (if String.eqb (s_desc s) EmptyString then gacx cms vs xs msgs sg L A
+                   else add_comment (mkdcomment OSignal (s_desc s) EmptyString msgid (clear (s_name s))) (gacx cms vs xs msgs sg L A))
+                  = gacx (cms ++ (if String.eqb (s_desc s) EmptyString then [] else [mkdcomment OSignal (s_desc s) EmptyString msgid (clear (s_name s))])) vs xs msgs sg L A).
     { destruct (String.eqb (s_desc s) EmptyString); [rewrite app_nil_r|]; reflexivity. }
-    rewrite Hcm. fold (wk_sig s). rewrite asgs_gacc. fold (T_sig msgid s).
-    change (add_sig ?d (gacc ?c ?v ?m ?g ?l ?a)) with (gacc c v m (g ++ [d]) l a).
-    destruct (walk_outer_g es sigs order msgid recs false s Hids Hin Hp HK HKn k (zrange 0 (Z.to_nat (s_gcount s))) [] [] []
-                (cms ++ (if String.eqb (s_desc s) EmptyString then [] else [mkdcomment OSignal (s_desc s) EmptyString msgid (clear (s_name s))]))
-                vs msgs (sg ++ [mux_dsig order recs s]) L (fold_left exp_t (T_sig msgid s) A) (zrange_nodup _ _)) as [gmap' [names' E]].
-    + intros cn v Hl. discriminate Hl.
-    + intros c _ [].
-    + match goal with |- context[fold_left ?f (zrange 0 ?n) ?init] =>
-        replace (fold_left f (zrange 0 n) init) with
-          (gacc ((cms ++ (if String.eqb (s_desc s) EmptyString then [] else [mkdcomment OSignal (s_desc s) EmptyString msgid (clear (s_name s))]))
-                 ++ flat_map (sig_cms msgid) (wall sigs s (zrange 0 (Z.to_nat (s_gcount s)))))
-                (vs ++ flat_map (venc_e es msgid) (wall sigs s (zrange 0 (Z.to_nat (s_gcount s))))) msgs
-                ((sg ++ [mux_dsig order recs s]) ++ wsigs es sigs order recs s (zrange 0 (Z.to_nat (s_gcount s))))
-                (fold_left enums_step (wall sigs s (zrange 0 (Z.to_nat (s_gcount s)))) L)
-                (fold_left exp_t (flat_map (T_sig msgid) (wall sigs s (zrange 0 (Z.to_nat (s_gcount s))))) (fold_left exp_t (T_sig msgid s) A)),
-           names', gmap', false, false)
-          by (symmetry; exact E) end.
-      cbn [negb andb]. change (walk_of sigs s) with (wall sigs s (zrange 0 (Z.to_nat (s_gcount s)))). rewrite fold_left_app, <- !app_assoc. reflexivity.
+    rewrite Hcm. fold (wk_sig s). rewrite asgs_gacx. fold (T_sig msgid s).
+    change (add_sig ?d (gacx ?c ?v ?x ?m ?g ?l ?a)) with (gacx c v x m (g ++ [d]) l a).
+    set (cms1 := cms ++ (if String.eqb (s_desc s) EmptyString then [] else [mkdcomment OSignal (s_desc s) EmptyString msgid (clear (s_name s))])).
+    destruct (walk_outer es sigs order msgid recs false s Hg1 HKg HKn k (Z.to_nat (s_gcount s)) 0
+                (gacx cms1 vs xs msgs (sg ++ [mux_dsig order recs s]) L (fold_left exp_t (T_sig msgid s) A)) [] [] false ltac:(lia) ltac:(lia)) as [gmap' [E EG]].
+    { intros c _. cbn. reflexivity. }
+    match goal with |- context[fold_left ?f (zrange 0 ?n) ?init] =>
+      replace (fold_left f (zrange 0 n) init) with
+        (fold_left (xstep es sigs order msgid recs false k) (wpairs sigs s (zrange 0 (Z.to_nat (s_gcount s))))
+                   (gacx cms1 vs xs msgs (sg ++ [mux_dsig order recs s]) L (fold_left exp_t (T_sig msgid s) A)),
+         [] ++ map (fun c => clear (s_name c)) (wall sigs s (zrange 0 (Z.to_nat (s_gcount s)))), gmap', false,
+         false || existsb (fun id => existsb (fun c => in_group c id && negb (id =? grp c)) (children sigs s)) (zrange 0 (Z.to_nat (s_gcount s))))
+        by (symmetry; exact E) end.
+    cbn [orb app].
+    rewrite (xsteps_gacx es sigs order msgid recs false s Hids Hin Hp HK).
+    set (W := wall sigs s (zrange 0 (Z.to_nat (s_gcount s)))).
+    assert (HW : forall c, In c W -> In c (children sigs s)).
+    { intros c Hc. unfold W, wall in Hc. apply in_flat_map in Hc. destruct Hc as [id [_ Hc]]. apply filter_In in Hc. tauto. }
+    assert (Hfin : forall acc,
+      (if negb (existsb (fun id => existsb (fun c => in_group c id && negb (id =? grp c)) (children sigs s)) (zrange 0 (Z.to_nat (s_gcount s)))) && negb false
+       then acc
+       else fold_left (fun acc cn0 =>
+              let g := match lookup String.eqb cn0 gmap' with Some g => g | None => [] end in
+              if negb false && Nat.eqb (length g) 1 then acc
+              else add_extmux (mkdextmux msgid (clear (s_name s)) cn0 (ranges_of g)) acc) (map (fun c => clear (s_name c)) W) acc)
+      = fold_left (fun a e => add_extmux e a) (flat_map (ext_of msgid s) W) acc).
+    { intros acc. destruct (existsb _ (zrange 0 (Z.to_nat (s_gcount s)))) eqn:Ee; cbn [negb andb].
+      - apply (ext_fold msgid s gmap' W acc). intros c Hc. rewrite (EG c (HW c Hc)).
+        rewrite Forall_forall in HKg. rewrite (vis_all s c (HKg c (HW c Hc)) Hg1).
+        pose proof (mem_of_nonempty s c (HKg c (HW c Hc))) as Hne. destruct (mem_of (s_gcount s) c); [contradiction|reflexivity].
+      - replace (flat_map (ext_of msgid s) W) with (@nil dextmux); [reflexivity|].
+        symmetry. induction W as [|c r IHW]; [reflexivity|]. cbn [flat_map].
+        rewrite (no_revisit sigs msgid s Hg1 HKg Ee c (HW c (or_introl eq_refl))). apply IHW. intros x Hx. apply HW. right. assumption. }
+    rewrite Hfin.
+    change (gacx ?c ?v xs ?m ?g ?l ?a) with (with_ext xs (gacx c v [] m g l a)). rewrite fold_add_extmux.
+    unfold with_ext, gacx, cms1, W. cbn [ea_comments ea_attrs ea_attrdefs ea_attrvals ea_valencs ea_messages ea_sigs ea_names ea_enums].
+    unfold walk_of. rewrite fold_left_app, <- !app_assoc. reflexivity.
 Qed.
 
-Lemma export_tops_g : forall es sigs order msgid recs k l cms vs msgs sg L A,
+Lemma export_tops_g : forall es sigs order msgid recs k l cms vs xs msgs sg L A,
   NoDup (map s_id sigs) ->
   (forall s, In s l -> In s sigs /\ top_ok es (strip_sig s) /\
      (is_muxb s = true -> Forall (fun c => child_ok es (strip_sig s) (strip_sig c)) (children sigs s) /\
                           NoDup (map (fun c => clear (s_name c)) (children sigs s)))) ->
-  fold_left (fun a s => export_signal es sigs order msgid recs false (S k) s a) l (gacc cms vs msgs sg L A)
-  = gacc (cms ++ flat_map (sig_cms msgid) (flat_map (tx sigs) l)) (vs ++ flat_map (venc_e es msgid) (flat_map (tx sigs) l)) msgs
+  fold_left (fun a s => export_signal es sigs order msgid recs false (S k) s a) l (gacx cms vs xs msgs sg L A)
+  = gacx (cms ++ flat_map (sig_cms msgid) (flat_map (tx sigs) l)) (vs ++ flat_map (venc_e es msgid) (flat_map (tx sigs) l))
+         (xs ++ flat_map (texts msgid sigs) l) msgs
          (sg ++ flat_map (tdsigs es sigs order recs) l) (fold_left enums_step (flat_map (tx sigs) l) L)
          (fold_left exp_t (flat_map (T_sig msgid) (flat_map (tx sigs) l)) A).
 Proof.
-  intros es sigs order msgid recs k l. induction l as [|s r IH]; intros cms vs msgs sg L A Hids H; cbn [fold_left flat_map].
+  intros es sigs order msgid recs k l. induction l as [|s r IH]; intros cms vs xs msgs sg L A Hids H; cbn [fold_left flat_map].
   - rewrite !app_nil_r. reflexivity.
   - destruct (H s (or_introl eq_refl)) as [H1 [H2 H3]]. rewrite export_top_g by assumption.
     rewrite IH by (try assumption; intros x Hx; apply H; right; assumption).
@@ -285,13 +276,13 @@ Proof.
   induction (filter is_topb (m_signals m)) as [|t r IH]; [reflexivity|]. cbn [map flat_map]. rewrite IH, tdsigs_strip. reflexivity.
 Qed.
 
-Lemma export_message_mg : forall names es m cms vs msgs sigs0 L A,
+Lemma export_message_mg : forall names es m cms vs xs msgs sigs0 L A,
   mmessage es names (strip_msg m) ->
-  export_message es m (gacc cms vs msgs sigs0 L A)
-  = gacc (cms ++ msg_cms (xmsg m)) (vs ++ msg_vencs es (xmsg m)) (msgs ++ [dmsg_m es m]) [] (fold_left enums_step (SX m) L)
+  export_message es m (gacx cms vs xs msgs sigs0 L A)
+  = gacx (cms ++ msg_cms (xmsg m)) (vs ++ msg_vencs es (xmsg m)) (xs ++ msg_exts m) (msgs ++ [dmsg_m es m]) [] (fold_left enums_step (SX m) L)
          (fold_left exp_t (TM_msg m) A).
 Proof.
-  intros names es m cms vs msgs sigs0 L A Hmm.
+  intros names es m cms vs xs msgs sigs0 L A Hmm.
   pose proof Hmm as [_ [_ [_ [_ [_ [Hid [Hsz [Hms [Hlay _]]]]]]]]].
   cbn [m_canid m_size m_signals strip_msg] in Hid, Hsz, Hms, Hlay.
   unfold export_message. cbv zeta.
@@ -313,30 +304,30 @@ Proof.
   assert (Hmany : Nat.ltb 1 (length (filter (fun s => match s_kind s with KMux => true | _ => false end) (filter is_topb (m_signals m)))) = false).
   { pose proof (mux_count es _ Hms) as Hc. rewrite !filter_map_comm, map_length in Hc. exact Hc. }
   rewrite Hmany.
-  assert (Hacc : (if String.eqb (m_desc m) EmptyString then gacc cms vs msgs sigs0 L A
-                    else add_comment (mkdcomment OMessage (m_desc m) EmptyString (u32 (m_canid m)) EmptyString) (gacc cms vs msgs sigs0 L A))
-                 = gacc (cms ++ opt_cm (m_desc m) (mkdcomment OMessage (m_desc m) EmptyString (u32 (m_canid m)) EmptyString)) vs msgs sigs0 L A).
+  assert (Hacc : (if String.eqb (m_desc m) EmptyString then gacx cms vs xs msgs sigs0 L A
+                    else add_comment (mkdcomment OMessage (m_desc m) EmptyString (u32 (m_canid m)) EmptyString) (gacx cms vs xs msgs sigs0 L A))
+                 = gacx (cms ++ opt_cm (m_desc m) (mkdcomment OMessage (m_desc m) EmptyString (u32 (m_canid m)) EmptyString)) vs xs msgs sigs0 L A).
   { unfold opt_cm. destruct (String.eqb (m_desc m) EmptyString); [rewrite app_nil_r|]; reflexivity. }
-  rewrite Hacc. fold (wk_msg m). rewrite asgs_gacc.
-  change (set_sigs [] (gacc ?c ?v ?ms ?sg ?l ?a)) with (gacc c v ms [] l a).
-  unfold msg_cms, msg_vencs, xmsg. cbn [m_desc m_canid m_signals set_m_signals]. unfold TM_msg, SX.
+  rewrite Hacc. fold (wk_msg m). rewrite asgs_gacx.
+  change (set_sigs [] (gacx ?c ?v ?x ?ms ?sg ?l ?a)) with (gacx c v x ms [] l a).
+  unfold msg_cms, msg_vencs, msg_exts, xmsg. cbn [m_desc m_canid m_signals set_m_signals]. unfold TM_msg, SX.
   destruct (m_signals m) as [|s0 r0] eqn:Es.
-  - cbn [filter fold_left length flat_map]. unfold dmsg_m, gacc, add_message. rewrite Es. cbn. rewrite !app_nil_r. reflexivity.
+  - cbn [filter fold_left length flat_map]. unfold dmsg_m, gacx, add_message. rewrite Es. cbn. rewrite !app_nil_r. reflexivity.
   - rewrite <- Es in *. replace (length (m_signals m)) with (S (length r0)) by (rewrite Es; reflexivity).
     rewrite export_tops_g; [|apply (ids_nodup es names m Hmm)|exact Htops].
-    unfold dmsg_m, gacc, add_message. cbn. rewrite fold_left_app, <- ?app_assoc. reflexivity.
+    unfold dmsg_m, gacx, add_message. cbn. rewrite fold_left_app, <- ?app_assoc. reflexivity.
 Qed.
 
-Lemma export_messages_mg : forall names es l cms vs msgs L A,
+Lemma export_messages_mg : forall names es l cms vs xs msgs L A,
   Forall (fun m => mmessage es names (strip_msg m)) l ->
-  exists L', fold_left (fun a m => export_message es m a) l (gacc cms vs msgs [] L A)
-  = gacc (cms ++ flat_map msg_cms (map xmsg l)) (vs ++ flat_map (msg_vencs es) (map xmsg l)) (msgs ++ map (dmsg_m es) l) [] L'
+  exists L', fold_left (fun a m => export_message es m a) l (gacx cms vs xs msgs [] L A)
+  = gacx (cms ++ flat_map msg_cms (map xmsg l)) (vs ++ flat_map (msg_vencs es) (map xmsg l)) (xs ++ flat_map msg_exts l) (msgs ++ map (dmsg_m es) l) [] L'
          (fold_left exp_t (flat_map TM_msg l) A).
 Proof.
-  intros names es l. induction l as [|m r IH]; intros cms vs msgs L A H; cbn [fold_left map flat_map].
+  intros names es l. induction l as [|m r IH]; intros cms vs xs msgs L A H; cbn [fold_left map flat_map].
   - exists L. rewrite !app_nil_r. reflexivity.
   - inversion H; subst. rewrite (export_message_mg names) by assumption.
-    destruct (IH (cms ++ msg_cms (xmsg m)) (vs ++ msg_vencs es (xmsg m)) (msgs ++ [dmsg_m es m]) (fold_left enums_step (SX m) L)
+    destruct (IH (cms ++ msg_cms (xmsg m)) (vs ++ msg_vencs es (xmsg m)) (xs ++ msg_exts m) (msgs ++ [dmsg_m es m]) (fold_left enums_step (SX m) L)
                  (fold_left exp_t (TM_msg m) A)) as [L' E]; [assumption|].
     exists L'. rewrite E. rewrite fold_left_app, <- !app_assoc. reflexivity.
 Qed.
@@ -345,7 +336,7 @@ Definition AM_of (b : bus) : eacc := fold_left exp_t (TM_bus b) empty_acc.
 Definition amdoc (b : bus) (L : list Z) : doc :=
   mkdoc (b_name b) (map (fun n => clear (n_name n)) (b_nodes b)) (map (table_of (b_enums b)) L)
         (map (dmsg_m (b_enums b)) (b_messages b)) (doc_cms (xbus b))
-        (ea_attrs (AM_of b)) (ea_attrdefs (AM_of b)) (ea_attrvals (AM_of b)) (bus_vencs (xbus b)) [].
+        (ea_attrs (AM_of b)) (ea_attrdefs (AM_of b)) (ea_attrvals (AM_of b)) (bus_vencs (xbus b)) (bus_exts b).
 
 Lemma strip_msgs_m : forall es names l, Forall (mmessage es names) (map strip_msg l) -> Forall (fun m => mmessage es names (strip_msg m)) l.
 Proof. intros es names l H. induction l as [|m r IH]; [constructor|]. cbn [map] in H. inversion H; subst. constructor; auto. Qed.
@@ -354,7 +345,7 @@ Lemma export_mg : forall b, grouped b -> mbus (strip_bus b) -> exists L, export 
 Proof.
   intros b Hg [_ [_ [_ [_ [_ [Hm _]]]]]]. cbn [b_messages b_nodes b_enums strip_bus] in Hm. apply strip_msgs_m in Hm.
   unfold export. cbv zeta.
-  assert (Hnodes : forall nodes cms0 vs0 msgs0 L0 A0,
+  assert (Hnodes : forall nodes cms0 vs0 xs0 msgs0 L0 A0,
     exists L1,
     fold_left (fun a n =>
         let name := clear (n_name n) in
@@ -363,31 +354,32 @@ Proof.
         let a := fold_left (fun a x => export_assignment ONode name 0 EmptyString x a) (sort_attrs (n_attrs n)) a in
         fold_left (fun a m => export_message (b_enums b) m a)
                   (filter (fun m => String.eqb (m_sender m) (n_name n)) (b_messages b)) a)
-      nodes (gacc cms0 vs0 msgs0 [] L0 A0)
-    = gacc (cms0 ++ flat_map (node_cms (xbus b)) nodes)
+      nodes (gacx cms0 vs0 xs0 msgs0 [] L0 A0)
+    = gacx (cms0 ++ flat_map (node_cms (xbus b)) nodes)
            (vs0 ++ flat_map (msg_vencs (b_enums b)) (map xmsg (flat_map (fun n => filter (fun m => String.eqb (m_sender m) (n_name n)) (b_messages b)) nodes)))
+           (xs0 ++ flat_map msg_exts (flat_map (fun n => filter (fun m => String.eqb (m_sender m) (n_name n)) (b_messages b)) nodes))
            (msgs0 ++ map (dmsg_m (b_enums b)) (flat_map (fun n => filter (fun m => String.eqb (m_sender m) (n_name n)) (b_messages b)) nodes)) [] L1
            (fold_left exp_t (flat_map (TM_node b) nodes) A0)).
-  { induction nodes as [|n r IH]; intros cms0 vs0 msgs0 L0 A0; cbn [fold_left flat_map map].
+  { induction nodes as [|n r IH]; intros cms0 vs0 xs0 msgs0 L0 A0; cbn [fold_left flat_map map].
     - exists L0. rewrite !app_nil_r. reflexivity.
-    - assert (Hcm : (if String.eqb (n_desc n) EmptyString then gacc cms0 vs0 msgs0 [] L0 A0
-                     else add_comment (mkdcomment ONode (n_desc n) (clear (n_name n)) 0 EmptyString) (gacc cms0 vs0 msgs0 [] L0 A0))
-                    = gacc (cms0 ++ opt_cm (n_desc n) (mkdcomment ONode (n_desc n) (clear (n_name n)) 0 EmptyString)) vs0 msgs0 [] L0 A0).
+    - assert (Hcm : (if String.eqb (n_desc n) EmptyString then gacx cms0 vs0 xs0 msgs0 [] L0 A0
+                     else add_comment (mkdcomment ONode (n_desc n) (clear (n_name n)) 0 EmptyString) (gacx cms0 vs0 xs0 msgs0 [] L0 A0))
+                    = gacx (cms0 ++ opt_cm (n_desc n) (mkdcomment ONode (n_desc n) (clear (n_name n)) 0 EmptyString)) vs0 xs0 msgs0 [] L0 A0).
       { unfold opt_cm. destruct (String.eqb (n_desc n) EmptyString); [rewrite app_nil_r; reflexivity|reflexivity]. }
-      cbv zeta. rewrite Hcm. rewrite asgs_gacc.
-      match goal with |- exists L1, fold_left ?f r (fold_left ?g ?l (gacc ?c ?v ?ms [] ?L ?a)) = _ =>
-        destruct (export_messages_mg (map n_name (map strip_node (b_nodes b))) (b_enums b) l c v ms L a) as [L2 E2]; [apply Forall_filter; assumption|] end.
+      cbv zeta. rewrite Hcm. rewrite asgs_gacx.
+      match goal with |- exists L1, fold_left ?f r (fold_left ?g ?l (gacx ?c ?v ?x ?ms [] ?L ?a)) = _ =>
+        destruct (export_messages_mg (map n_name (map strip_node (b_nodes b))) (b_enums b) l c v x ms L a) as [L2 E2]; [apply Forall_filter; assumption|] end.
       rewrite E2.
-      match goal with |- exists L1, fold_left ?f r (gacc ?c ?v ?m [] ?l ?a) = _ => destruct (IH c v m l a) as [L1 E] end.
+      match goal with |- exists L1, fold_left ?f r (gacx ?c ?v ?x ?m [] ?l ?a) = _ => destruct (IH c v x m l a) as [L1 E] end.
       exists L1. refine (eq_trans E _). unfold node_cms, TM_node, xbus. cbn [b_messages set_b_messages]. rewrite filter_xmsg.
       rewrite !map_app, !flat_map_app, !fold_left_app, <- !app_assoc. reflexivity. }
   assert (H0 : (if String.eqb (b_desc b) EmptyString then mkeacc [] [] [] [] [] [] [] [] [] []
                 else add_comment (mkdcomment OGeneral (b_desc b) EmptyString 0 EmptyString) (mkeacc [] [] [] [] [] [] [] [] [] []))
-               = gacc (opt_cm (b_desc b) (mkdcomment OGeneral (b_desc b) EmptyString 0 EmptyString)) [] [] [] [] empty_acc).
+               = gacx (opt_cm (b_desc b) (mkdcomment OGeneral (b_desc b) EmptyString 0 EmptyString)) [] [] [] [] [] empty_acc).
   { unfold opt_cm. destruct (String.eqb (b_desc b) EmptyString); reflexivity. }
-  rewrite H0. rewrite asgs_gacc.
-  match goal with |- context[fold_left ?f (b_nodes b) (gacc ?c ?v ?m [] ?l ?a)] => destruct (Hnodes (b_nodes b) c v m l a) as [L1 E] end.
-  exists L1. cbv zeta in E. rewrite E. unfold grouped in Hg. rewrite Hg. unfold amdoc, AM_of, TM_bus. rewrite fold_left_app. cbn. reflexivity.
+  rewrite H0. rewrite asgs_gacx.
+  match goal with |- context[fold_left ?f (b_nodes b) (gacx ?c ?v ?x ?m [] ?l ?a)] => destruct (Hnodes (b_nodes b) c v x m l a) as [L1 E] end.
+  exists L1. cbv zeta in E. rewrite E. unfold grouped in Hg. rewrite Hg. unfold amdoc, AM_of, TM_bus, bus_exts. rewrite fold_left_app. cbn. reflexivity.
 Qed.
 
 (* ---------------- the export order is a permutation of the signals ---------------- *)
@@ -991,6 +983,16 @@ Proof.
   rewrite !map_map. apply map_ext. intros m. unfold xmsg. rewrite SX_strip_msg. reflexivity.
 Qed.
 
+Lemma bus_exts_strip : forall b, bus_exts (strip_bus b) = bus_exts b.
+Proof.
+  intros b. unfold bus_exts. cbn [b_messages strip_bus].
+  induction (b_messages b) as [|m r IH]; [reflexivity|]. cbn [map flat_map]. rewrite IH. f_equal.
+  unfold msg_exts. cbn [m_canid m_signals strip_msg]. rewrite filter_map_comm. change (fun x => is_topb (strip_sig x)) with is_topb.
+  induction (filter is_topb (m_signals m)) as [|t q IHq]; [reflexivity|]. cbn [map flat_map]. rewrite IHq. f_equal.
+  unfold texts. change (is_muxb (strip_sig t)) with (is_muxb t). destruct (is_muxb t); [|reflexivity].
+  rewrite walk_of_strip. induction (walk_of (m_signals m) t) as [|c w IHw]; [reflexivity|]. cbn [map flat_map]. rewrite IHw. reflexivity.
+Qed.
+
 Definition all_result (b : bus) (es' : list enum_def) (msgs' : list message) : bus :=
   mkbus (b_name b) (b_desc b) (map RoundTripAttr.img (sort_attrs (b_attrs b)))
         (zipf fin_node (b_nodes b) (mk_nodes 0 (map strip_node (b_nodes b)))) es' (zipf fin_msg_n (b_messages b) msgs').
@@ -1007,7 +1009,8 @@ Proof.
   { cbn. rewrite map_map. apply map_ext. intros m. symmetry. apply dmsg_m_strip. }
   assert (D5 : d_comments d = doc_cms (xbus (strip_bus b))) by (rewrite xbus_strip; symmetry; apply doc_cms_strip).
   assert (D6 : d_valencs d = bus_vencs (xbus (strip_bus b))) by (rewrite xbus_strip; symmetry; apply bus_vencs_strip).
-  destruct (import_struct_m (strip_bus b) L d Hsb eq_refl D2 eq_refl D4 D5 D6 eq_refl) as [st' [msgs' [HI [HF HS]]]].
+  assert (D7 : d_extmuxes d = bus_exts (strip_bus b)) by (rewrite bus_exts_strip; reflexivity).
+  destruct (import_struct_m (strip_bus b) L d Hsb eq_refl D2 eq_refl D4 D5 D6 D7) as [st' [msgs' [HI [HF HS]]]].
   cbn [b_name b_desc b_nodes b_messages b_enums strip_bus] in HI, HF, HS.
   destruct (attrs_map_ok (TM_bus b) HT) as [amap [Hfold Hlk]]. cbv zeta in Hfold.
   pose proof (all_t_ok_m b amap Hab Hlk) as Hok.
@@ -1099,9 +1102,10 @@ Definition example_all_bus : bus :=
         [mkasg "MHex" (DefInt 0 0 255 true) (ValInt 16); mkasg "MEnum" (DefEnum "a" ["a"; "b"]) (ValString "b")]
         [ mksignal 0 "a" KStandard 0 None [] 8 false fl_one fl_zero fl_zero (mkfl 255 0) "" 0 0 0 "first" fl_zero 0 [a_flt (mkfl 1 1)];
           mksignal 1 "mode sel" KMux 8 None [] 0 false fl_one fl_zero fl_zero fl_zero "" 0 4 16 "the switch" fl_zero 3 [a_flt (mkfl 3 (-1))];
-          std_sig 2 "c0" 0 8 (Some 1) [0] "";
+          std_sig 2 "c0" 0 8 (Some 1) [0; 2] "in two groups";
           mksignal 3 "c1" KEnum 0 (Some 1) [1] 0 false fl_one fl_zero fl_zero fl_zero "" 0 0 0 "an enum child" (mkfl 3 0) 0 [a_flt (mkfl 5 (-1))];
-          mksignal 4 "c 2" KStandard 4 (Some 1) [1] 12 false fl_one fl_zero fl_zero (mkfl 255 0) "" 0 0 0 "a described child" fl_zero 2 [];
+          mksignal 4 "c 2" KStandard 4 (Some 1) [1] 4 false fl_one fl_zero fl_zero (mkfl 255 0) "" 0 0 0 "a described child" fl_zero 2 [];
+          mksignal 6 "fx" KStandard 8 (Some 1) [] 8 false fl_one fl_zero fl_zero (mkfl 255 0) "" 0 0 0 "fixed: in every group" fl_zero 0 [a_flt (mkfl 1 1)];
           mksignal 5 "z" KEnum 26 None [] 0 false fl_one fl_zero fl_zero fl_zero "" 0 0 0 "an enum beside the switch" fl_zero 0 [] ];
       mkmessage 512 "other" 1 BigEndian 0 20 0 0 "GW" [] "second" []
         [ mksignal 0 "n" KEnum 0 None [] 0 false fl_one fl_zero fl_zero fl_zero "" 0 0 0 "" fl_zero 3 [a_flt (mkfl 1 1)] ] ].
@@ -1141,7 +1145,7 @@ Example example_all_bus_roundtrip :
              = [ (100, 7, 2, ["MEnum"; "MHex"],
                   [ ("a", None, [], fl_zero, 0, [ValFloat (mkfl 1 1)]); ("z", None, [], fl_zero, 0, []);
                     ("mode_sel", None, [], fl_zero, 3, [ValFloat (mkfl 3 (-1))]);
-                    ("c0", Some 1, [0], fl_zero, 0, []); ("c1", Some 1, [1], mkfl 3 0, 0, [ValFloat (mkfl 5 (-1))]);
-                    ("c_2", Some 1, [1], fl_zero, 2, []) ]);
+                    ("c0", Some 1, [0; 2], fl_zero, 0, []); ("c1", Some 1, [1], mkfl 3 0, 0, [ValFloat (mkfl 5 (-1))]);
+                    ("c_2", Some 1, [1], fl_zero, 2, []); ("fx", Some 1, [], fl_zero, 0, [ValFloat (mkfl 1 1)]) ]);
                  (0, 0, 0, [], [("n", None, [], fl_zero, 3, [ValFloat (mkfl 1 1)])]) ].
 Proof. eexists. split; [vm_compute; reflexivity|]. split; vm_compute; reflexivity. Qed.
